@@ -717,7 +717,8 @@ def r07_mode_table(ctx, props=("C15",)):
                   sm.loc(),
                   "set_mode(%r) folds to the documented month lengths, year "
                   "lengths and derived constants" % mode,
-                  "set_mode(%r) yields %s" % (mode, "; ".join(diffs)), props)
+                  "set_mode(%r) yields %s" % (mode, "; ".join(diffs)),
+                  props + ("C11",))
     # leap rule -------------------------------------------------------------
     rule2 = "R07.leap-rule"
     rep.need_anchor(rule2, "get_is_leap_year")
